@@ -45,7 +45,7 @@ prev == Log[l - 1]
 IsStep == cur.op # "Reset"
 
 IsApp(e) == e.op \in {"AppWrite", "AppWrite2", "AppGrow", "AppGrowWrite", "AppShrink", "AppDelete", "AppReclaim", "AppVacuum", "AppDDL", "AppBegin", "AppSpill",
-                      "AppCommit", "AppRollback", "AppCheckpoint", "AppClose", "AppOpen", "ReaderOpen", "ReaderClose"}
+                      "AppCommit", "AppRollback", "AppCheckpoint", "AppHoldWrite", "AppJoin", "AppClose", "AppOpen", "ReaderOpen", "ReaderClose"}
 IsLs(e)  == e.op \in {"ParStep", "ParEnd", "LsOpen", "LsSync", "LsReplicaSync", "LsSyncAndWait", "LsCheckpoint", "LsClose", "LsReset",
                       "Snapshot", "Compact", "CkStart", "CkStep"}
 \* a litestream checkpoint, either as one call (LsCheckpoint) or step by step (CkStart, CkStep: res = "at" while parked at a hook)
@@ -179,8 +179,9 @@ C13_WalBoundedAfterSync_ ==
 C13_IdleSilence_ == idleNew = 0
 
 (* C14: litestream never alters the application's data *)
-C14_LitestreamStepKeepsAppData_ == (IsStep /\ ~IsApp(cur) /\ cur.op \notin {"ReplaceDb", "RestoreAll"}) => cur.app = prev.app
-C14_SameAsControlRun_ == (IsStep /\ cur.ctl # -1) => cur.app = cur.ctl
+\* (not judged while a background application writer is committing concurrently with the step: cur.bg)
+C14_LitestreamStepKeepsAppData_ == (IsStep /\ ~IsApp(cur) /\ ~cur.bg /\ cur.op \notin {"ReplaceDb", "RestoreAll"}) => cur.app = prev.app
+C14_SameAsControlRun_ == (IsStep /\ cur.ctl # -1 /\ ~cur.bg) => cur.app = cur.ctl
 C14_BookkeepingOnly_ == IsStep => (cur.lockN \in {0, -1} /\ cur.integ = "ok" /\ (cur.seqPg # 0 => cur.journal = "wal"))
 
 -----------------------------------------------------------------------------
